@@ -8,7 +8,7 @@ from sa.prov import Prov
 from sa.decide import Walker, completions, cmp_parts, values_at, return_values
 from .common import doc
 
-TECHNIQUE = ("dominator and reaching-definition rules on the chain walk, provenance expansion of the "
+TECHNIQUE = ("decision tables of the climb and validation loops of the chain walk and of is_valid (predicate-abstraction walk, shape-independent), provenance expansion of the "
              "verification expression against the specified construction, purity (no state carried "
              "between calls/targets) by field-write census, table agreement of the extractors with "
              "docs/attestation.md")
